@@ -1,12 +1,311 @@
 /-
-C05 — One live stream per path; replace/unregister/idle-close keep the registry consistent.
-Property theorems only.
+C05 — One live stream per path; replace / unregister / idle-close keep the registry consistent.
+Property theorems only; the proofs' helper lemmas live in IpcHub/Lemmas/{Registry,RegistryRefine,
+RegistryLts,CanonPath}.lean.  Models: Model/Registry.lean (media/global.go, the registry-relevant part
+of media/stream.go, onStopStream), Model/RegistryLts.lean (the bodies of Regist / Unregist as
+interleavable micro-steps), Model/CanonPath.lean (utils/path.go).  Specification: Spec/Registry.lean.
 -/
 import IpcHub.Model.RegistryInst
-import IpcHub.Spec.Registry
+import IpcHub.Lemmas.Registry
+import IpcHub.Lemmas.RegistryRefine
+import IpcHub.Lemmas.RegistryLts
+import IpcHub.Lemmas.CanonPath
 namespace IpcHub.Props.C05
-open IpcHub.Registry
+open IpcHub.CanonPath IpcHub.Registry IpcHub.RegistrySpec IpcHub.RegistryLts
 
-theorem c05_source_facts_wip : IpcHub.Gen.registryFactsUnknown = [] := by decide
+/-- The source facts the theorems rest on, regenerated from /repo on every run: the call order and
+    guards of Regist / Unregist / Get / Count / Infos / GetOrCreate, the idle task's period, fields and
+    decision, the one-pass body and fixed-point loop of CanonicalPath, NewStream's canonicalisation,
+    ConsumerCount over both tables, onStopStream's two calls. A source change that flips one of them
+    breaks this proof. -/
+theorem c05_source_facts :
+    IpcHub.Gen.registryFactsUnknown = [] ∧
+    IpcHub.Gen.registCalls = ["registLock.Lock()", "defer registLock.Unlock()", "streams.Load(s.path)",
+      "streams.Store(s.path, s)", "oldS.ConsumerCount()", "oldS.close(StreamReplaced)",
+      "runZeroConsumersCloseTask(oldS, StreamReplaced)"] ∧
+    IpcHub.Gen.registCallsConds = ["s == oldSI", "ok", "oldS.ConsumerCount() <= 0"] ∧
+    IpcHub.Gen.registStoreGuard = [] ∧
+    IpcHub.Gen.registCloseGuard = ["ok", "oldS.ConsumerCount() <= 0"] ∧
+    IpcHub.Gen.registTaskGuard = ["ok", "!(oldS.ConsumerCount() <= 0)"] ∧
+    IpcHub.Gen.unregistCalls = ["registLock.Lock()", "defer registLock.Unlock()", "streams.Load(s.path)",
+      "streams.Delete(s.path)", "s.Close()"] ∧
+    IpcHub.Gen.unregistDeleteGuard = ["ok", "s2 == s"] ∧
+    IpcHub.Gen.unregistCloseGuard = [] ∧
+    IpcHub.Gen.registLocked = true ∧ IpcHub.Gen.unregistLocked = true ∧ IpcHub.Gen.registLockIsMutex = true ∧
+    IpcHub.Gen.getCalls = ["utils.CanonicalPath(path)", "streams.Load(path)"] ∧
+    IpcHub.Gen.getCallsConds = ["ok", "atomic.LoadInt32(&s.status) == StreamOK"] ∧
+    IpcHub.Gen.countConds = ["atomic.LoadInt32(&s.status) != StreamOK"] ∧
+    IpcHub.Gen.infosConds = ["atomic.LoadInt32(&s.status) != StreamOK", "v.Path > pagetoken", "pagesize > len(ss)"] ∧
+    IpcHub.Gen.lookupSkipsClosed = true ∧
+    IpcHub.Gen.idlePeriod = "time.Minute * 5" ∧
+    IpcHub.Gen.idleTaskFields = ["s=s", "d=time.Minute * 5", "closedStats=closedStatus"] ∧
+    IpcHub.Gen.idleRunConds = ["r.s.ConsumerCount() <= 0", "pl == nil || time.Now().Sub(pl.LastAccessTime()) >= r.d"] ∧
+    IpcHub.Gen.idleRunAssigns = ["pl := r.s.hlsPlaylist", "r.closed = true"] ∧
+    IpcHub.Gen.idleRunCalls = ["r.s.close(r.closedStats)"] ∧
+    IpcHub.Gen.idleNextConds = ["r.closed"] ∧
+    IpcHub.Gen.idleCountsFlv = true ∧ IpcHub.Gen.idleNilSafe = true ∧
+    IpcHub.Gen.getOrCreateTaskGuard = ["r != nil", "psf.Can(r.URL)", "err == nil", "!r.KeepAlive"] ∧
+    IpcHub.Gen.consumerCountExpr = "s.consumptions.Count() + s.flvConsumptions.Count()" ∧
+    IpcHub.Gen.newStreamPath = "utils.CanonicalPath(path)" ∧
+    IpcHub.Gen.stopStreamCalls = ["media.Get(path)", "rt.Close()"] ∧
+    IpcHub.Gen.canonCalls = ["strings.ToLower(strings.TrimSpace(p))", "strings.TrimSpace(p)", "path.Clean(p)", "strings.HasPrefix(p, np)"] ∧
+    IpcHub.Gen.canonConds = ["p == \"\"", "p[0] != '/'", "p[len(p)-1] == '/' && np != \"/\"", "len(p) == len(np)+1 && strings.HasPrefix(p, np)"] ∧
+    IpcHub.Gen.canonStmts = ["p = strings.ToLower(strings.TrimSpace(p))", "return \"/\"", "p = \"/\" + p", "np := path.Clean(p)", "np = p", "np += \"/\"", "return np"] ∧
+    IpcHub.Gen.canonLoopStmts = ["np := canonicalPath(p)", "p, np = np, canonicalPath(np)", "return np"] ∧
+    IpcHub.Gen.canonLoopCond = "np != p" := by
+  decide
+
+/-- the regenerated facts are exactly the ones the property needs -/
+theorem c05_facts_good : genFacts = good := by decide
+
+/-- **Refinement (headline).**  For EVERY history of registry operations — create / register /
+    unregister / close / API-stop / consumer join and leave / idle ticks / HLS access / lookups under any
+    spelling / count / listing / liveness probes, of any length over any paths — every observation of
+    the model of the current source equals the observation of the specification `Spec/Registry.lean`:
+    a lookup returns the most recently registered, not since unregistered, not closed stream of the
+    canonical path; counts and listings are those of the live streams; the idle task closes exactly when
+    nothing is attached and there was no recent HLS access. -/
+theorem c05_refines (cfg : Cfg) (ops : List Op) :
+    runObs cfg genFacts State.empty ops = specObs cfg Abs.empty ops := by
+  rw [c05_facts_good]; exact refines cfg ops
+
+/-- In the specification a path resolves to at most one stream, and only to a live one that owns it
+    (this is what `c05_refines` transfers to the model's `Get`). -/
+theorem c05_spec_resolve_live (a : Abs) (cp : Path) (i : Nat) (h : a.resolve cp = some i) :
+    a.owner cp = some i ∧ a.closed i = false := by
+  unfold Abs.resolve at h
+  split at h
+  · rename_i o ho
+    by_cases hc : a.closed o = true
+    · simp [hc] at h
+    · simp [hc] at h; subst h; exact ⟨ho, by simpa using hc⟩
+  · simp at h
+
+/-- **One entry per path.**  In every reachable state the registry has no duplicate key and every entry
+    maps a path to a stream created under exactly that (canonical) path. -/
+theorem c05_one_stream_per_path (cfg : Cfg) (f : Facts) (ops : List Op) :
+    let st := run cfg f State.empty ops
+    (st.reg.map Prod.fst).Nodup ∧
+    ∀ k i, load st.reg k = some i → ∃ s, st.streams[i]? = some s ∧ s.path = k :=
+  (reachable_inv cfg f ops).1
+
+/-- **The most recently registered stream is the one a lookup returns**, under every spelling `q` of the
+    path it was created under (`p`): different case, surrounding blanks, doubled slashes, dot segments —
+    anything with the same canonical form. -/
+theorem c05_newest_wins (cfg : Cfg) (f : Facts) (ops : List Op) (p q : Path) (hasHls : Bool)
+    (hq : canonicalPath cfg q = canonicalPath cfg p) :
+    let st := run cfg f State.empty ops
+    get cfg f (regist (newStream cfg st p hasHls).1 (newStream cfg st p hasHls).2) q
+      = some (newStream cfg st p hasHls).2 := by
+  intro st
+  have hs : (newStream cfg st p hasHls).1.streams[(newStream cfg st p hasHls).2]? =
+      some { path := canonicalPath cfg p, status := .ok, rtp := [], flv := [], seed := 0,
+             hls := if hasHls then some st.now else none } := by
+    simp [newStream]
+  have h := regist_newest_wins hs rfl
+  unfold Registry.get
+  rw [hq]
+  simp only [] at h
+  rw [h.1]
+  have hv : visible f (regist (newStream cfg st p hasHls).1 (newStream cfg st p hasHls).2)
+      (newStream cfg st p hasHls).2 = true := by
+    have := h.2
+    unfold isOk at this
+    unfold visible
+    split at this
+    · rename_i s' hs'; rw [hs']; simp at this; simp [this]
+    · simp at this
+  simp [hv]
+
+/-- the canonical form is a projection: canonicalising twice changes nothing (ASCII instance: the
+    unbounded Go loop is modelled with fuel `len+2`, which is proved never to run out) -/
+theorem c05_canon_idem (p : List Char) :
+    canonicalPath asciiCfg (canonicalPath asciiCfg p) = canonicalPath asciiCfg p :=
+  ascii_canonicalPath_idem p
+
+/-- the same for any character functions with: lower idempotent, '/' not a blank, lower '/' = '/' -/
+theorem c05_canon_idem_generic (cfg : Cfg) (h : HMin cfg) (p : List Char) :
+    canonicalPath cfg (canonicalPath cfg p) = canonicalPath cfg p :=
+  canonicalPath_idem_min h p
+
+/-- a canonical path is a fixed point of one pass and begins with '/' -/
+theorem c05_canon_shape (p : List Char) :
+    canonicalOnce asciiCfg (canonicalPath asciiCfg p) = canonicalPath asciiCfg p ∧
+    (canonicalPath asciiCfg p).head? = some '/' :=
+  ⟨ascii_canonicalPath_stable p, canonicalPath_head asciiCfg p⟩
+
+/-- hence a registered live stream is found under the path it reports (`Get(s.Path()) == s`):
+    registering stream i created under spelling p, then looking up its own stored path -/
+theorem c05_listed_path_resolves (f : Facts) (ops : List Op) (p : Path) (hasHls : Bool) :
+    let st := run asciiCfg f State.empty ops
+    get asciiCfg f (regist (newStream asciiCfg st p hasHls).1 (newStream asciiCfg st p hasHls).2)
+      (canonicalPath asciiCfg p) = some (newStream asciiCfg st p hasHls).2 :=
+  c05_newest_wins asciiCfg f ops p (canonicalPath asciiCfg p) hasHls (c05_canon_idem p)
+
+/-- **A closed or unregistered stream is never returned by lookup** — not now and not after any further
+    history: once a stream's status is not StreamOK, no lookup under any path returns it. -/
+theorem c05_closed_never_returned (cfg : Cfg) (ops1 ops2 : List Op) (i : Nat) (p : Path) :
+    let st1 := run cfg genFacts State.empty ops1
+    i < st1.streams.length → isOk st1 i = false →
+    get cfg genFacts (run cfg genFacts st1 ops2) p ≠ some i := by
+  intro st1 hi hc hget
+  have h1 := run_closed_forever cfg genFacts st1 ops2 i hc hi
+  have h2 := get_some_ok (f := genFacts) (by decide) hget
+  rw [h1] at h2; cases h2
+
+/-- unregistering, closing (also through the API's stop) leaves the stream not-OK, so the previous
+    theorem applies from then on -/
+theorem c05_unregist_close_make_not_ok (st : State) (i : Nat) :
+    isOk (unregist st i) i = false ∧ isOk (closeStream st i false) i = false :=
+  ⟨isOk_unregist_self st i, isOk_closeStream_self st i false⟩
+
+/-- **Registering retires the old stream: at once if it has no consumers**, else by a pending
+    replaced-task (one more unfinished task watches it). -/
+theorem c05_regist_retires_old (cfg : Cfg) (f : Facts) (ops : List Op) (i o : Nat) (s : Stream) :
+    let st := run cfg f State.empty ops
+    st.streams[i]? = some s → load st.reg s.path = some o → o ≠ i →
+    (ccOf st o ≤ 0 → isOk (regist st i) o = false) ∧
+    (ccOf st o > 0 → pendingTasks (regist st i) o = pendingTasks st o + 1 ∧
+      ∃ t ∈ (regist st i).tasks, t.sid = o ∧ t.replaced = true) := by
+  intro st hs hl hne
+  exact regist_displaced (reachable_inv cfg f ops).1 hs hl hne
+
+/-- **Whatever displaces a registered stream retires it**: for all histories, if path k resolved to
+    stream o at some moment and does not any more later, then o is closed, or watched by a
+    replaced-task that closes it once its consumers are gone. -/
+theorem c05_displaced_is_retired (cfg : Cfg) (f : Facts) (ops1 ops2 : List Op) (k : Path) (o : Nat) :
+    let st1 := run cfg f State.empty ops1
+    load st1.reg k = some o → load (run cfg f st1 ops2).reg k ≠ some o →
+    retired (run cfg f st1 ops2) o :=
+  displaced_retired cfg f ops1 ops2 k o
+
+/-- **Unregistering a retired stream never removes its successor**: if the path of stream i is not
+    (any longer) mapped to i, `Unregist(i)` leaves the registry and every other stream untouched. -/
+theorem c05_unregist_keeps_successor (st : State) (i : Nat) (s : Stream)
+    (hs : st.streams[i]? = some s) (hne : load st.reg s.path ≠ some i) :
+    (unregist st i).reg = st.reg ∧ ∀ j, j ≠ i → (unregist st i).streams[j]? = st.streams[j]? :=
+  unregist_not_owner hs hne
+
+/-- **Idle close only when unused**: if a run of the idle task turns a live stream into a closed one,
+    that stream had no consumer in either table (RTP and FLV) and, if it has an HLS playlist, its last
+    access is at least the period ago; nothing else is touched. -/
+theorem c05_idle_only_when_unused (st st' : State) (t d : Nat) (r : TickResult) (task : Task) (s : Stream)
+    (ht : tick genFacts st t d = (st', r)) (htask : st.tasks[t]? = some task)
+    (hs : st.streams[task.sid]? = some s) (hok : s.status = .ok) (hc : isOk st' task.sid = false) :
+    (s.rtp = [] ∧ s.flv = []) ∧ (∀ last, s.hls = some last → st.now - last ≥ d) ∧
+    st'.reg = st.reg ∧ (∀ j, j ≠ task.sid → st'.streams[j]? = st.streams[j]?) := by
+  have h := tick_close_only_idle ht htask hs hok hc
+  have hf := tick_frame genFacts st t d
+  rw [ht] at hf
+  exact ⟨h.1 (by decide), h.2.2, hf.1, hf.2 task htask⟩
+
+/-- **Counts and listings match the live set**: in every reachable state `Count` counts exactly the
+    registry keys whose lookup succeeds (each once: keys are duplicate-free), sums the consumers of
+    exactly those streams, and `Infos` reports the same total. -/
+theorem c05_counts_match_live (cfg : Cfg) (ops : List Op) (token : Path) (size : Nat) :
+    let st := run cfg genFacts State.empty ops
+    (count genFacts st).1 = ((st.reg.map Prod.fst).filter (fun k => (lookup genFacts st k).isSome)).length ∧
+    (count genFacts st).2 = (((st.reg.map Prod.fst).filterMap (lookup genFacts st)).map (ccOf st)).foldl (· + ·) 0 ∧
+    (infos genFacts st token size).1 = (count genFacts st).1 := by
+  intro st
+  have hw := (reachable_inv cfg genFacts ops).1
+  exact ⟨count_fst hw, count_snd hw, infos_fst genFacts st token size⟩
+
+/-- **Racing registrations / unregistrations (any number of threads, any interleaving).**  With the
+    lock the source takes (`registLocked`, `unregistLocked`, `registLockIsMutex` are regenerated
+    facts), whenever all threads have finished, the registry state is the state after executing the
+    operations one after the other in the order in which they entered the critical section, and that
+    order is a permutation of the operations: every sequential theorem above applies to the outcome
+    of every race. -/
+theorem c05_regist_race_linearizable (st0 : State) (ops : List ROp) (sched : List Nat) :
+    let locked := IpcHub.Gen.registLocked && IpcHub.Gen.unregistLocked && IpcHub.Gen.registLockIsMutex
+    let c := runSched locked (initC st0 ops) sched
+    allDone c = true → c.st = seqRun st0 c.lin ∧ c.lin.Perm ops := by
+  have hl : (IpcHub.Gen.registLocked && IpcHub.Gen.unregistLocked && IpcHub.Gen.registLockIsMutex) = true := by decide
+  simp only [hl]
+  exact linearizable st0 ops sched
+
+/-- and no schedule deadlocks: while a thread is unfinished some thread can step -/
+theorem c05_regist_race_progress (st0 : State) (ops : List ROp) (sched : List Nat) :
+    let c := runSched true (initC st0 ops) sched
+    allDone c = false → ∃ t, (stepThread true c t).isSome = true :=
+  quiescent_progress st0 ops sched
+
+/-- Two publishers / two on-demand pulls racing for one path: after any interleaving exactly one of the
+    two new streams is registered and the other one is retired (closed at once, having no consumers). -/
+theorem c05_two_racers_one_registered (sched : List Nat)
+    (hd : allDone (runSched true (initC cexSt cexOps) sched) = true) :
+    let st := (runSched true (initC cexSt cexOps) sched).st
+    (load st.reg cexPath = some 1 ∧ isOk st 1 = true ∧ isOk st 2 = false) ∨
+    (load st.reg cexPath = some 2 ∧ isOk st 2 = true ∧ isOk st 1 = false) := by
+  obtain ⟨l, hp, hst⟩ := serial_outcome cexSt cexOps sched hd
+  intro st
+  have hst' : st = seqRun cexSt l := hst
+  rcases perm_pair hp with h | h
+  · right; rw [hst', h]; decide
+  · left; rw [hst', h]; decide
+
+/-- Why the lock is needed (the code before the fix, `locked = false`): the schedule the harness forces
+    through the verif points — first Regist paused after its Load, second Regist run, first resumed —
+    ends with stream 1 registered and stream 2 still live, unregistered and never retired; this
+    differs from both serial orders.  Replayed on the implementation: corpus/C05/regist-race.case. -/
+theorem c05_unlocked_race_counterexample :
+    allDone cexFinal = true ∧
+    load cexFinal.st.reg cexPath = some 1 ∧ isOk cexFinal.st 1 = true ∧ isOk cexFinal.st 2 = true ∧
+    pendingTasks cexFinal.st 2 = 0 ∧
+    ∀ l : List ROp, l.Perm cexOps → cexFinal.st.streams ≠ (seqRun cexSt l).streams :=
+  ⟨unlocked_counterexample.1, unlocked_counterexample.2.2.2.1, unlocked_counterexample.2.2.2.2.2.1,
+   unlocked_counterexample.2.2.2.2.2.2.1, unlocked_counterexample.2.2.2.2.2.2.2.1, unlocked_not_serial.2⟩
+
+/-- Why the other facts are needed — the old behaviours as theorems about the model with the old facts
+    (witnesses in corpus/C05): a stream closed through the API was still returned by Get and counted;
+    the idle task closed a stream with an FLV consumer; for a stream without playlist it panicked. -/
+theorem c05_old_facts_counterexamples :
+    let old : Facts := { idleCountsFlv := false, idleNilSafe := false, lookupSkipsClosed := false }
+    let p : Path := ['/', 'a']
+    -- new, regist, close, get, count
+    runObs asciiCfg old State.empty [.new p true, .regist 0, .close 0, .get p, .count]
+      = [.sid (some 0), .unit, .unit, .sid (some 0), .cnt 1 0] ∧
+    specObs asciiCfg Abs.empty [.new p true, .regist 0, .close 0, .get p, .count]
+      = [.sid (some 0), .unit, .unit, .sid none, .cnt 0 0] ∧
+    -- new, regist, idle task, FLV join, tick
+    runObs asciiCfg old State.empty [.new p true, .regist 0, .postIdle 0, .join 0 true, .tick 0 0, .get p]
+      = [.sid (some 0), .unit, .unit, .cid (some 1), .tick (.ran true), .sid (some 0)] ∧
+    specObs asciiCfg Abs.empty [.new p true, .regist 0, .postIdle 0, .join 0 true, .tick 0 0, .get p]
+      = [.sid (some 0), .unit, .unit, .cid (some 1), .tick (.ran false), .sid (some 0)] ∧
+    -- no playlist: the decision panics
+    runObs asciiCfg old State.empty [.new p false, .postIdle 0, .tick 0 0]
+      = [.sid (some 0), .unit, .tick .panic] := by
+  decide
+
+/-! non-vacuity: the hypotheses of the conditional theorems are met by concrete non-trivial states -/
+
+/-- `c05_regist_retires_old`: a reachable state in which path /a is held by stream 0 (with a consumer)
+    and stream 1 on the same path is about to be registered -/
+example :
+    let st := run asciiCfg genFacts State.empty [.new ['/', 'a'] true, .new ['/', 'A'] false, .regist 0, .join 0 false]
+    st.streams[1]?.map (·.path) = some ['/', 'a'] ∧ load st.reg ['/', 'a'] = some 0 ∧ ccOf st 0 > 0 := by decide
+
+/-- `c05_closed_never_returned` / `c05_displaced_is_retired`: a reachable state with a closed, formerly
+    registered stream -/
+example :
+    let st := run asciiCfg genFacts State.empty [.new ['/', 'a'] true, .regist 0, .stop [' ', 'A']]
+    0 < st.streams.length ∧ isOk st 0 = false ∧ load st.reg ['/', 'a'] = some 0 := by decide
+
+/-- `c05_idle_only_when_unused`: a tick that really closes a live stream -/
+example :
+    let st := run asciiCfg genFacts State.empty [.new ['/', 'a'] false, .regist 0, .postIdle 0]
+    (tick genFacts st 0 300).2 = .ran true ∧ isOk st 0 = true ∧ isOk (tick genFacts st 0 300).1 0 = false := by decide
+
+/-- `c05_unregist_keeps_successor`: stream 0 was replaced by stream 1; unregistering 0 keeps 1 -/
+example :
+    let st := run asciiCfg genFacts State.empty [.new ['/', 'a'] true, .new ['a'] true, .regist 0, .regist 1]
+    load st.reg ['/', 'a'] = some 1 ∧ load (unregist st 0).reg ['/', 'a'] = some 1 := by decide
+
+/-- `c05_two_racers_one_registered`: its hypothesis holds for a real schedule -/
+example : allDone (runSched true (initC cexSt cexOps) pauseSchedule) = true := by decide
+
+/-- `c05_newest_wins`: two different spellings with the same canonical form -/
+example : canonicalPath asciiCfg [' ', 'A', '/', '/', 'b', '/', '.'] = canonicalPath asciiCfg ['/', 'a', '/', 'B'] := by decide
 
 end IpcHub.Props.C05
